@@ -67,6 +67,7 @@ type Engine struct {
 	Facts      map[string]int
 	mkSub      func(Kind) Subject
 	finReg     *finRegistry
+	mutLog     []Op // C15: the mutating ops applied so far
 }
 
 func NewEngine(cfg *Config, kinds []Kind) *Engine {
@@ -360,6 +361,11 @@ func (e *Engine) Apply(op Op) error {
 
 // Finish runs the end-of-history audits on every tree.
 func (e *Engine) Finish() error {
+	if e.cfg.Bracket {
+		if err := e.readFreeReplicaCheck(); err != nil {
+			return err
+		}
+	}
 	for _, s := range e.slots {
 		if s.arena != nil {
 			e.Facts["arena_calls"] += s.arena.Calls
@@ -437,7 +443,7 @@ func (e *Engine) apply(s *slot, op Op) error {
 	}
 
 	if s.arena != nil {
-		s.arena.setNext(op.Off, op.Spare)
+		s.arena.setNext(op.Off, op.Spare, op.Fill)
 	}
 
 	var before *rawState
@@ -520,6 +526,9 @@ func (e *Engine) doInsert(s *slot, op Op) error {
 	if p := call(func() { s.sub.Insert(op.K, op.V) }); p != "" {
 		return e.outcome("insert", what, p)
 	}
+	if e.cfg.Bracket {
+		e.mutLog = append(e.mutLog, op)
+	}
 	if s.twin != nil {
 		if p := call(func() { s.twin.Insert(op.K, op.V) }); p != "" {
 			return e.outcome("insert", what+" (fresh twin)", p)
@@ -584,6 +593,9 @@ func (e *Engine) doDelete(s *slot, op Op) error {
 	var got bool
 	if p := call(func() { got = s.sub.Delete(op.K) }); p != "" {
 		return e.outcome("delete", what, p)
+	}
+	if e.cfg.Bracket {
+		e.mutLog = append(e.mutLog, op)
 	}
 	_, present := s.model.Get(op.K)
 	if present {
@@ -1090,6 +1102,75 @@ func (e *Engine) doIterAudit(s *slot, op Op) error {
 		if err := e.doIter(s, o); err != nil {
 			return err
 		}
+	}
+	return nil
+}
+
+// readFreeReplicaCheck (C15): a fresh tree that receives only the mutating
+// operations of the history (no query was ever run on it) must look and answer
+// exactly like the tree on which queries were interleaved.
+func (e *Engine) readFreeReplicaCheck() error {
+	for ti, s := range e.slots {
+		var rep Subject
+		if p := call(func() {
+			rep = e.mkSub(s.kind)
+			for _, op := range e.mutLog {
+				if op.T != ti {
+					continue
+				}
+				if op.Op == "insert" {
+					rep.Insert(op.K, op.V)
+				} else {
+					rep.Delete(op.K)
+				}
+			}
+		}); p != "" {
+			return ErrAbort
+		}
+		want := canonicalDump(VerifDumpOf(rep), true)
+		got := canonicalDump(VerifDumpOf(s.sub), true)
+		if want != got {
+			return violf("the tree on which queries were interleaved differs from a replica that saw only the %d mutating operations:\n%s\nvs replica\n%s", len(e.mutLog), got, want)
+		}
+		obs := func(sub Subject) (string, string) {
+			var sb strings.Builder
+			p := call(func() {
+				k, v, ok := sub.Minimum()
+				fmt.Fprintf(&sb, "min=%x,%d,%v;", k, v, ok)
+				k, v, ok = sub.Maximum()
+				fmt.Fprintf(&sb, "max=%x,%d,%v;size=%d;", k, v, ok, sub.Size())
+				fmt.Fprintf(&sb, "all=%s;", e.fmtSeq(s.kind, collect(sub.All()), 1<<30))
+				fmt.Fprintf(&sb, "bwd=%s;", e.fmtSeq(s.kind, collect(sub.Backward()), 1<<30))
+				fmt.Fprintf(&sb, "top2=%s;bottom2=%s;", e.fmtSeq(s.kind, collect(sub.TopK(2)), 1<<30), e.fmtSeq(s.kind, collect(sub.BottomK(2)), 1<<30))
+				es := s.model.Sorted()
+				if s.kind.HasRange() && len(es) > 0 {
+					fmt.Fprintf(&sb, "range=%s;", e.fmtSeq(s.kind, collect(sub.Range(es[0].Raw, es[len(es)-1].Raw)), 1<<30))
+					if s.kind.Family() == "alpha" {
+						fmt.Fprintf(&sb, "openrange=%s;", e.fmtSeq(s.kind, collect(sub.Range(es[0].Raw, []byte{})), 1<<30))
+					}
+				}
+				if s.kind.HasPrefix() && len(es) > 0 {
+					fmt.Fprintf(&sb, "prefix=%s;", e.fmtSeq(s.kind, collect(sub.Prefix(es[len(es)/2].Raw[:len(es[len(es)/2].Raw)/2])), 1<<30))
+				}
+				for _, en := range es {
+					v, ok := sub.Search(en.Raw)
+					fmt.Fprintf(&sb, "%d%v,", v, ok)
+				}
+			})
+			return sb.String(), p
+		}
+		a, pa := obs(s.sub)
+		b, pb := obs(rep)
+		if pa != "" || pb != "" {
+			if pa != pb {
+				return violf("final queries panic on one of {tree with interleaved queries, query-free replica} only: %q vs %q", pa, pb)
+			}
+			continue
+		}
+		if a != b {
+			return violf("final query results differ between the tree on which queries were interleaved and a replica that saw only the mutating operations:\n%s\nvs replica\n%s", a, b)
+		}
+		e.fact("readfree_replica_compared")
 	}
 	return nil
 }
